@@ -31,6 +31,10 @@ def gen_1d_point(rng, f, allow_nan_e=True):
     for fi in f:
         shape = math.exp(-((fi - fp) / (0.3 * fp + 0.02)) ** 2) + 0.05 * rng.random()
         e.append(C.dyadic(rng, 0.01, 4.0, 12) * shape)
+    # the directional means are ratios of band integrals: a sea of micrometre waves (or of any unit system) has
+    # the same mean direction and spread as the same sea at metre scale
+    mag = rng.choice([1.0] * 7 + [2.0 ** -70, 2.0 ** -52, 2.0 ** 40])
+    e = [v * mag for v in e]
     kind = rng.choice(["smooth", "smooth", "seam", "quadrants", "tiny", "unit", "random_disc"])
     base = rng.uniform(-180, 180)
     if kind == "seam":
